@@ -1,10 +1,11 @@
 ----------------------------- MODULE CmdsTrace -----------------------------
-(* Code -> spec for the two helpers of C06 whose documented text leaves the    *)
+(* Code -> spec for the helper of C06 whose statement leaves the               *)
 (* implementation a choice: a timed pause may be cut into ANY zero-move        *)
-(* commands of 1..750 ms that sum to n, and motors_enable may prepare the      *)
-(* single-motor case with the documented preparation commands in more than one *)
-(* way.  Observed command lists that differ from the table's (greedy /        *)
-(* query-first) rendering are judged here by the statement itself.             *)
+(* commands of 1..750 ms that sum to n.  An observed command list that differs *)
+(* from the table's greedy rendering is judged here by the statement itself.   *)
+(* (motors_enable is NOT free: "and nothing else" - a preparation command that *)
+(* is not needed, e.g. re-setting a scale already in use, energises motor 1    *)
+(* for a moment and is a different request; seed C06_1.)                       *)
 EXTENDS EBBCmds, Json, IOUtils
 Trace == ndJsonDeserialize(IOEnv.TRACE_FILE)
 VARIABLES i, verdict
@@ -13,17 +14,8 @@ PauseObservedOK(n, ds, wf) ==
   /\ wf                                                   \* every line lexed as SM,<d>,0,0 followed by one CR
   /\ \A k \in 1..Len(ds) : ds[k] >= 1 /\ ds[k] <= 750
   /\ SumSeq(ds) = (IF n > 0 THEN n ELSE 0)
-MotorsObservedOK(r1, r2, ls) ==
-  LET c1 == Clamp05(r1) c2 == Clamp05(r2)
-      one == (c1 # c2) /\ (c1 * c2 = 0)
-      only2 == c1 = 0 /\ c2 # 0
-      final == "EM," \o S(c1) \o "," \o S(c2)
-      Allowed(l) == (one /\ l = "CU,50,0") \/ (only2 /\ l \in {"QE", "EM," \o S(c2) \o "," \o S(c2)}) IN
-  /\ Len(ls) >= 1 /\ ls[Len(ls)] = final
-  /\ \A k \in 1..(Len(ls) - 1) : Allowed(ls[k])
 Judge(e) ==
   IF e.h = "timed_pause" THEN (IF PauseObservedOK(e.n, Sq(e.ds), e.wf) THEN "ok" ELSE "text.pause_chunks_1_750_sum_n")
-  ELSE IF e.h = "motors_enable" THEN (IF MotorsObservedOK(e.r1, e.r2, Sq(e.lines)) THEN "ok" ELSE "text.motors_enable_clamped_final_em_and_nothing_else")
   ELSE "badevent"
 TInit == i = 0 /\ verdict = "init"
 TNext == i < Len(Trace) /\ i' = i + 1 /\ verdict' = Judge(Trace[i + 1])
